@@ -294,3 +294,9 @@ def guards_equiv(g1: Sequence[Term], g2: Sequence[Term]) -> Optional[bool]:
         return True
     except boolfn.NotBoolean:
         return None
+
+
+def without_asserts(s: Summary, guards: Sequence[Term]) -> Tuple[Term, ...]:
+    """Guards that stem from `assert` statements are assumptions, not conditions."""
+    asserted = {T.strip(e.term[1]) for e in s.of_kind("assert")}
+    return tuple(g for g in guards if not (g[2] and T.strip(g[1]) in asserted))
